@@ -21,14 +21,14 @@ IsEv(e) == l <= Len(Trace) /\ Trace[l].ev = e /\ l' = l + 1
 
 TraceInit ==
   /\ l = 1 /\ cid = 0 /\ viol = {} /\ drift = {} /\ merr = {} /\ ncases = 0
-  /\ ctx = [pk |-> "", tree |-> {}, umask |-> 0, noglob |-> FALSE, pmt |-> 0]
+  /\ ctx = [pk |-> "", tree |-> {}, umask |-> 0, noglob |-> FALSE, pmt |-> 0, pmtset |-> FALSE]
   /\ todo = <<>> /\ done = 0 /\ map = EmptyMap /\ status = "idle"
 
 TraceCase ==
   /\ IsEv("case")
   /\ LET c == Trace[l] IN
        /\ cid' = c.id
-       /\ ctx' = [pk |-> c.pk, tree |-> SeqToSet(c.tree), umask |-> c.umask, noglob |-> c.noglob, pmt |-> c.pmt]
+       /\ ctx' = [pk |-> c.pk, tree |-> SeqToSet(c.tree), umask |-> c.umask, noglob |-> c.noglob, pmt |-> c.pmt, pmtset |-> c.pmt # 0]
        /\ todo' = c.entries
   /\ done' = 0 /\ map' = EmptyMap /\ status' = "run"
   /\ ncases' = ncases + 1
